@@ -110,6 +110,42 @@ def stdlib_edge_programs(rng, n):
     return out
 
 
+def list_history(rng, n):
+    """history over the generated list type List<int>, preconditions tracked on a Python list; the lengths visit the capacity
+    boundaries (8, 16, 32, ... and a chosen initial capacity) so that inserts and pushes meet a full list"""
+    ops, exp, lst = [], [], []
+    if rng.random() < 0.5:
+        c = rng.choice([1, 2, 3, 4, 8, 16])
+        ops.append("new:%d" % c); exp.append("-")
+    fill = rng.choice([0, 3, 7, 8, 9, 15, 16, 17, 31, 32, 33, 64])
+    for k in range(fill):
+        ops.append("push:%d" % k); exp.append("-"); lst.append(k)
+    for _ in range(n):
+        c = rng.random()
+        if c < 0.2 or not lst:
+            v = rng.choice([0, -1, 2**63 - 1, -2**63, rng.randint(-999, 999)])
+            ops.append("push:%d" % v); exp.append("-"); lst.append(v)
+        elif c < 0.45:
+            i = rng.choice([0, len(lst), len(lst) // 2, rng.randrange(len(lst) + 1)]); v = rng.randint(-99, 99)
+            ops.append("ins:%d:%d" % (i, v)); exp.append("-"); lst.insert(i, v)
+        elif c < 0.6:
+            i = rng.choice([0, len(lst) - 1, rng.randrange(len(lst))]); ops.append("rm:%d" % i); exp.append(str(lst.pop(i)))
+        elif c < 0.68:
+            ops.append("pop"); exp.append(str(lst.pop()))
+        elif c < 0.8:
+            i = rng.randrange(len(lst)); ops.append("get:%d" % i); exp.append(str(lst[i]))
+        elif c < 0.9:
+            i = rng.randrange(len(lst)); v = rng.randint(-99, 99); ops.append("set:%d:%d" % (i, v)); exp.append("-"); lst[i] = v
+        elif c < 0.93:
+            ops.append("clear"); exp.append("-"); lst = []
+        else:
+            ops.append("len"); exp.append(str(len(lst)))
+    for i in range(len(lst)):
+        if i in (0, len(lst) - 1) or rng.random() < 0.2:
+            ops.append("get:%d" % i); exp.append(str(lst[i]))
+    return ",".join(ops), ",".join(exp)
+
+
 def san_run(args):
     tdir, td, k, src, cc = args
     p = os.path.join(td, "s%d.nano" % k)
@@ -163,6 +199,14 @@ def run(ctx):
             disagreements.append(("gc " + ops[:200], a[-120:], c[-120:]))
         if c.split(",")[-1] != exp:
             oracle_fail.append({"history": ops[:1500], "impl": c[-300:], "expected": exp, "why": "GC bookkeeping (num_objects / managed set) disagrees with the reference counts"})
+    # generated list type List<int> (no Lean model: implementation under sanitizers vs the abstract list)
+    lh = [list_history(rng, rng.choice([5, 20, 60])) for _ in range(200 if quick else 3000)]
+    pl = common.batch_robust(probe, ["list " + h[0] for h in lh], timeout=3000, env=env)
+    for (ops, exp), c in zip(lh, pl):
+        ctx.case("list:" + ops[:300] + str(len(ops)))
+        if c != exp:
+            oracle_fail.append({"history": ops[:1500], "impl": c[:600], "expected(abstract list)": exp[:600], "why": "List<int> does not behave like the abstract sequence (or sanitizer report)"})
+    ctx.cov["list_int_histories"] = len(lh)
     ctx.cov["dyn_histories"] = len(hist)
     ctx.cov["gc_histories"] = len(gh)
 
@@ -174,6 +218,12 @@ def run(ctx):
         srcs.append(text)
     srcs.append("fn main() -> int {\n    let a: int = 9223372036854775807\n    let b: int = (+ a 1)\n    (println b)\n    (println (* a 3))\n    (println (- (- 0 a) 2))\n    return 0\n}\nshadow main { assert (== 1 1) }\n")
     srcs += stdlib_edge_programs(rng, 2 if quick else 12)
+    # every arithmetic operator at the boundary pairs (operands arrive as function parameters, so the C compiler cannot fold them)
+    from .. import lang
+    bpairs = [(a, b) for a in lang.BOUNDARY for b in lang.BOUNDARY]
+    for op in ("+", "-", "*", "/", "%"):
+        ch = [(a, b) for a, b in rng.sample(bpairs, 40 if quick else 400) + lang.NEAR_PAIRS if not (op in ("/", "%") and b == 0)]
+        srcs.append(lang.arith_program(op, ch))
     with tempfile.TemporaryDirectory(prefix="nvc20", dir="/var/tmp") as td:
         cc = os.path.join(td, "sancc")
         open(cc, "w").write("#!/bin/sh\nexec clang-14 -fsanitize=address,undefined -fno-sanitize-recover=undefined -fno-omit-frame-pointer -Wno-error \"$@\"\n")
